@@ -173,7 +173,7 @@ func drawStartupInput(t *rapid.T) c26Input {
 	m := programELF(p)
 	in := c26Input{kind: "file", valid: true, desc: "valid program"}
 	mutate := func(desc string) { in.valid = false; in.desc = desc }
-	pre := uniformInt(t, 20, "modelMutation")
+	pre := uniformInt(t, 24, "modelMutation")
 	switch pre {
 	case 0:
 		m.Sections = m.Sections[1:] // no executable section
@@ -211,6 +211,23 @@ func drawStartupInput(t *rapid.T) c26Input {
 		m2.Sections[0].Off, m2.Sections[1].Off = m2.PayloadOff(), m2.PayloadOff()+uint64(4*len(p.words))
 		m = m2
 		mutate("no program headers")
+	case 10, 11, 12:
+		// the code at an extreme address: ending exactly at 2^64 (the end address
+		// wraps to 0), a few pages below it, or at address 0
+		size := uint64(4 * len(p.words))
+		var base uint64
+		switch pre {
+		case 10:
+			base = -size
+		case 11:
+			base = -size - 4096*uint64(1+uniformInt(t, 4, "pagesBelowTop"))
+		}
+		m.Sections[0].Addr = base
+		if rapid.Bool().Draw(t, "moveSegmentToo") {
+			m.Segments[0].Vaddr = base
+		}
+		m.Entry = base + (p.entry - rvCodeBase)
+		mutate(fmt.Sprintf("code section at 0x%x (extreme address)", base))
 	}
 	file, lay := m.Bytes()
 	in.bytes = file
@@ -290,7 +307,7 @@ func drawStartupInput(t *rapid.T) c26Input {
 func TestC26(t *testing.T) {
 	col := ev.New("C26", "rapid: input files for the real program: valid RV64 programs wrapped into ELF executables by an "+
 		"independent writer, and the same with model-level defects (no executable section, entry mid-instruction/outside, "+
-		"undecodable word, jump target outside the code, wrong type, truncated word, overlapping segments, memsz<filesz, "+
+		"undecodable word, jump target outside the code, wrong type, truncated word, overlapping segments, memsz<filesz, code at address 0 / next to / ending at 2^64, "+
 		"no program headers) and byte-level defects (truncation at every header boundary and at random offsets, bit flips "+
 		"in ELF header / program header table / section header table, class/endianness/machine bytes, offset/size "+
 		"overflow, empty file, text file, directory, missing file). Every input runs through the in-process start-up "+
